@@ -92,6 +92,9 @@ def draw_table(rng, config):
         for _ in range(columns if rng.random() < 0.8 else rng.randint(1, 4)):
             row.append("".join(rng.choice(alphabet) for _ in range(rng.choice([0, 1, 1, 2, 3]))))
         table.append(row)
+    if table and rng.random() < 0.04:
+        # what a tool would take for a hint or a comment is a row like any other: "sep=", "#", the byte order mark alone
+        table[0] = [rng.choice(["sep=", "sep=" + delimiter, "#", "\ufeff"])] + [""] * (len(table[0]) - 1)
     return table
 
 
